@@ -148,7 +148,7 @@ RP_GETTER_STUBS = ["max_aggregation_factor", "bit_length", "extension_degree", "
                    "gi_base_iter", "hi_base_iter", "precomp"]
 
 
-def verifier_pieces(verify_fns, verify_stubs):
+def verifier_pieces(verify_fns, verify_stubs, hoist=()):
     return types() + RPT_ITEMS + [
         text("spec/tproto_trait.rs"), text("spec/sproto_trait.rs"), text("spec/spec_transcript.rs"), text("spec/spec_mask.rs"), text("spec/spec_wf.rs"),
         text("spec/spec_verify.rs"), text("spec/spec_relation.rs"),
@@ -159,7 +159,7 @@ def verifier_pieces(verify_fns, verify_stubs):
         fns("src/utils/generic.rs", None, None, stubs=["nonce", "compute_generator_padding"]),
         fns("src/extended_mask.rs", "impl ExtendedMask {", "ExtendedMask", stubs=["assign"]),
         fns("src/range_parameters.rs", "impl RangeParameters<P> {", "RangeParameters", stubs=RP_GETTER_STUBS, subst=IMPL_ITER_SUBST),
-        fns("src/range_proof.rs", RP_HEADER, "RangeProof", fns=verify_fns, stubs=verify_stubs, mapcollect=True),
+        fns("src/range_proof.rs", RP_HEADER, "RangeProof", fns=verify_fns, stubs=verify_stubs, mapcollect=True, hoist=list(hoist)),
     ]
 
 
@@ -222,7 +222,7 @@ UNITS["verify_rel"] = {
     "prelude": PRELUDE_ALL,
     "contracts": ["ctors.vc", "gens.vc", "transcripts.vc", "nonce.vc", "consistency.vc", "verify_safety.vc", "verify_transcript.vc", "verify_relation.vc"],
     "pieces": verifier_pieces(["verify"], ["verify_statements_and_generators_consistency", "a_decompressed", "a1_decompressed",
-                               "b_decompressed", "li_decompressed", "ri_decompressed"]),
+                               "b_decompressed", "li_decompressed", "ri_decompressed"], hoist=["verify:vartime_mixed_multiscalar_mul"]),
     "safety": {"*": ["C16"]},
     "rlimit": 300,
 }
